@@ -80,6 +80,7 @@ SIMPLER_CLASS = {
     "SpanEdge": "DirectedEdge",
     "ArcEdge": "DirectedEdge",
     "SanctuaryUniverse": "Universe",
+    "RegionUniverse": "Universe",
     "LabelledEdge": "DirectedEdge",
     "SubUniverse": "Universe",
     "FalsyUniverse": "Universe",
